@@ -693,6 +693,11 @@ class PortNamespace(collections.abc.MutableMapping, Port):
                     else:
                         port_value = default
 
+                    if isinstance(port, PortNamespace):
+                        # The nested ``pre_process`` modifies its argument in place: work on a copy of the (nested)
+                        # dictionaries such that the default of the namespace itself is left untouched
+                        port_value = _copy_nested_mappings(port_value)
+
                 # If a namespace containing ports, create an empty dictionary so its ports can be considered recursively
                 elif isinstance(port, PortNamespace) and port.ports:
                     port_value = {}
@@ -791,6 +796,13 @@ class PortNamespace(collections.abc.MutableMapping, Port):
                 stripped.append(rule[len(prefix) :])
 
         return stripped
+
+
+def _copy_nested_mappings(value: Any) -> Any:
+    """Recursively copy (nested) mappings into new dictionaries, without copying the values they contain."""
+    if isinstance(value, collections.abc.Mapping):
+        return {key: _copy_nested_mappings(subvalue) for key, subvalue in value.items()}
+    return value
 
 
 def breadcrumbs_to_port(breadcrumbs: Sequence[str]) -> str:
